@@ -587,3 +587,162 @@ Proof.
     exists (JStr c). split; [exact Hc|]. exists c. auto.
   - apply FtStruct. eapply struct_mono; [exact REC|]. apply struct_ft_shape; auto.
 Qed.
+
+(* ---------------------------------------------------------------- configuration objects *)
+
+Notation CF k := ("config/3/config#/definitions/" ++ k)%string.
+
+Theorem feature_uint_ft_shape j : VK (CF "feature-uint-ft") j -> feature_uint_ft_doc false j.
+Proof.
+  unfold VK. intros H.
+  denote_in H (unf_in [CF "feature-uint-ft"; FT "uint-ft-class-prop"; FT "uenum-ft-class-prop"]) 14. flat.
+  to_obj j.
+  assert (D : (exists x, lookup "class" m = Some x) \/ lookup "class" m = None)
+    by (destruct (lookup "class" m); eauto).
+  destruct D as [[x Hx]|Hx].
+  - match goal with X : forall x, lookup "class" m = Some x -> enum_mem x _ = true /\ True |- _ =>
+      destruct (X x Hx) as [E _]; clear X end.
+    apply enum_mem_all_str in E; [|reflexivity]. destruct E as (c & -> & Hin).
+    simpl in Hin. repeat (destruct Hin as [<-|Hin]; [|try contradiction]).
+    1-3: left; apply uint_ft_shape; unfold VK;
+         match goal with X : _ /\ V S3 (SRef ?k) ?jj \/ _ |- V S3 (SRef ?k) ?jj => this_class X Hx end.
+    all: right; apply uenum_ft_shape; unfold VK;
+         match goal with X : _ /\ V S3 (SRef ?k) ?jj \/ _ |- V S3 (SRef ?k) ?jj => this_class X Hx end.
+  - left. apply uint_ft_shape. unfold VK.
+    match goal with X : _ /\ V S3 (SRef ?k) ?jj \/ _ |- V S3 (SRef ?k) ?jj => destruct X as [X|X] end.
+    + flat. assumption.
+    + exfalso. flat. match goal with E : JObj _ = JObj _ |- _ => injection E as <- end. congruence.
+Qed.
+
+Theorem opt_or_def_feature_shape j :
+  VK (CF "opt-or-def-feature-uint-ft") j -> j = JNull \/ opt_or_def_feature_doc false j.
+Proof.
+  unfold VK. intros H. denote_in H (unf_in [CF "opt-or-def-feature-uint-ft"]) 14. flat. the_or.
+  - right. right. vk feature_uint_ft_shape.
+  - the_or.
+    + right. left. match goal with T : has_type_in j [TBool] = true |- _ => exact (has_type_bool _ T) end.
+    + the_or. left. is_null.
+Qed.
+Theorem opt_feature_shape j :
+  VK (CF "opt-feature-uint-ft") j -> j = JNull \/ opt_feature_doc false j.
+Proof.
+  unfold VK. intros H. denote_in H (unf_in [CF "opt-feature-uint-ft"]) 14. flat. the_or.
+  - right. right. vk feature_uint_ft_shape.
+  - the_or.
+    + right. left. destruct j; try discriminate. destruct b; [reflexivity|discriminate].
+    + left. is_null.
+Qed.
+
+(* a structure field type, whole tree *)
+Lemma struct_ft_tree j : VK (FT "struct-ft") j -> struct_ft_doc false (ft_doc false) j.
+Proof.
+  intros H. eapply struct_mono; [|apply struct_ft_shape; exact H]. intros x _. apply ft_tree.
+Qed.
+Theorem opt_struct_ft_shape j :
+  VK (CF "opt-struct-ft") j -> j = JNull \/ struct_ft_doc false (ft_doc false) j.
+Proof.
+  unfold VK. intros H. denote_in H (unf_in [CF "opt-struct-ft"]) 6. flat. the_or.
+  - right. vk struct_ft_tree.
+  - left. is_null.
+Qed.
+
+Theorem ert_shape j : VK (CF "ert") j -> ert_doc false j.
+Proof.
+  unfold VK. intros H. denote_in H (unf_in [CF "ert"]) 6. flat.
+  to_obj j. eexists; split; [reflexivity|]. repeat split.
+  - opt. vk opt_int_min_0_shape.
+  - opt. vk opt_struct_ft_shape.
+  - opt. vk opt_struct_ft_shape.
+  - use_keys.
+Qed.
+
+Theorem struct_ft_members_shape x :
+  VK (FT "struct-ft-members") x -> members_doc false (ft_doc false) x.
+Proof.
+  intros H. apply (members_mono false (VK (FT "ft"))); [intros y _; apply ft_tree|].
+  unfold VK in H. denote_in H (unf_in ft_inl) 14. flat.
+  match goal with T : has_type_in ?x [TArr] = true |- _ => destruct (has_type_arr _ T) as [l ->] end.
+  inst. exists l. split; [reflexivity|]. intros e He.
+  match goal with X : forall x0, In x0 l -> _ |- _ => specialize (X e He) end. flat.
+  match goal with T : has_type_in e [TObj] = true |- _ => destruct (has_type_obj _ T) as [me ->] end.
+  inst. flat.
+  match goal with L1 : 1 <= List.length me, L2 : List.length me <= 1 |- _ =>
+    destruct (singleton_of_length _ L1 L2) as [[name v] ->] end.
+  exists name, v. split; [reflexivity|]. split; [discriminate|]. intros _ Hn.
+  split; [apply match_ident_spec; exact Hn|].
+  match goal with X : forall k x1, In (k, x1) [(name, v)] -> _ |- _ =>
+    specialize (X name v (or_introl eq_refl) Hn) end. flat.
+  match goal with T : has_type_in v [TObj] = true |- _ => destruct (has_type_obj _ T) as [mo ->] end.
+  inst. flat. exists mo. split; [reflexivity|]. split.
+  - req. assumption.
+  - use_keys.
+Qed.
+
+Lemma ident_key_of_extra (m : list (string * json)) k x :
+  (forall k x, In (k, x) m -> is_extra [] [PIdent] k = true -> False) ->
+  In (k, x) m -> pat_match PIdent k = true.
+Proof.
+  intros E Hin. destruct (pat_match PIdent k) eqn:P; [reflexivity|]. exfalso.
+  apply (E k x Hin). unfold is_extra. cbn -[pat_match]. rewrite P. reflexivity.
+Qed.
+Lemma named_map_of (P : json -> Prop) key x nonempty :
+  has_type_in x [TObj] = true ->
+  (forall m0, x = JObj m0 ->
+     (forall k x0, In (k, x0) m0 -> pat_match PIdent k = true -> V S3 (SRef key) x0) /\ True) ->
+  (forall m0, x = JObj m0 -> forall k x0, In (k, x0) m0 -> is_extra [] [PIdent] k = true -> False) ->
+  (nonempty = true -> forall m0, x = JObj m0 -> 1 <= List.length m0) ->
+  (forall y, VK key y -> P y) ->
+  named_map false nonempty P x.
+Proof.
+  intros T A E N PV. destruct (has_type_obj _ T) as [m ->].
+  exists m. split; [reflexivity|]. split.
+  - intros Hn. apply nonempty_of_length. exact (N Hn m eq_refl).
+  - intros k v Hin. pose proof (ident_key_of_extra m k v (E m eq_refl) Hin) as Pk. split.
+    + apply match_ident_spec. exact Pk.
+    + apply PV. destruct (A m eq_refl) as [A' _]. exact (A' k v Hin Pk).
+Qed.
+
+Theorem clock_type_shape j : VK (CF "clock-type") j -> clock_type_doc false j.
+Proof.
+  unfold VK. intros H. denote_in H (unf_in [CF "clock-type"]) 6. flat.
+  to_obj j. eexists; split; [reflexivity|]. repeat split.
+  - opt. vk opt_uuid_shape.
+  - opt. vk opt_string_shape.
+  - opt. vk opt_int_min_1_shape.
+  - opt. vk opt_int_min_0_shape.
+  - opt. vk opt_offset_shape.
+  - opt. vk opt_bool_shape.
+  - opt. vk opt_string_shape.
+  - use_keys.
+Qed.
+
+Ltac obj_or_null x :=
+  the_or; [right; match goal with T : has_type_in x [TObj] = true |- _ =>
+                    let m := fresh "m" in destruct (has_type_obj _ T) as [m ->]; inst; flat; clean end
+          | left; is_null].
+
+Theorem dst_shape j : VK (CF "dst") j -> dst_doc false j.
+Proof.
+  unfold VK. intros H. denote_in H (unf_in [CF "dst"]) 14. flat.
+  to_obj j. eexists; split; [reflexivity|]. repeat split.
+  - opt. vk opt_bool_shape.
+  - opt. the_or; [right; vk iden_shape|left; is_null].
+  - opt. obj_or_null x. eexists; split; [reflexivity|]. repeat split.
+    + opt. obj_or_null x0. eexists; split; [reflexivity|]. repeat split.
+      * opt. vk opt_feature_shape.
+      * opt. vk opt_feature_shape.
+      * opt. vk opt_or_def_feature_shape.
+      * opt. vk opt_or_def_feature_shape.
+      * opt. vk opt_or_def_feature_shape.
+      * opt. vk opt_or_def_feature_shape.
+      * use_keys.
+    + opt. obj_or_null x0. eexists; split; [reflexivity|]. repeat split.
+      * opt. vk opt_or_def_feature_shape.
+      * opt. vk opt_or_def_feature_shape.
+      * use_keys.
+    + use_keys.
+  - opt. the_or; [right; vk struct_ft_members_shape|left; is_null].
+  - opt. vk opt_struct_ft_shape.
+  - req. eapply named_map_of; eauto. exact ert_shape.
+  - use_keys.
+Qed.
